@@ -72,11 +72,11 @@ theorem specTable_labelsOf {Sym : Type} [Inhabited Sym] (lab : Nat → Sym) (ext
 /-- **`to_generic_decoder_model`** of any model whose symbol table is the specification's:
     never faults; same bins, same labels; and its own symbol table is the same table again -/
 theorem generic_decoder {Sym : Type} [DecidableEq Sym] [Inhabited Sym] {B P : Nat}
-    (lab : Nat → Sym) {ext : List Nat} (h : ValidExt P ext) (hP : P ≤ B) :
+    (lab : Nat → Sym) {ext : List Nat} (h : ValidExt P ext) (hP1 : 1 ≤ P) (hP : P ≤ B) :
     ∃ md, NcDec.fromTable B P (specTable lab ext) = .ok md ∧
       (∀ q, q < 2 ^ P → md.dec B q = .ok ((labelledModel (labelsOf lab (ext.length - 1)) ext).dec q)) ∧
       md.table B = .ok (specTable lab ext) ∧ ValidCdf B P (md.cdf.map (·.1)) := by
-  obtain ⟨last, hmd⟩ := NcDec.fromTable_specTable (B := B) lab h
+  obtain ⟨last, hmd⟩ := NcDec.fromTable_specTable (B := B) lab h hP1 hP
   have hlen : (labelsOf lab (ext.length - 1)).length + 1 = ext.length := by
     rw [labelsOf_length]; have := h.1; omega
   refine ⟨_, hmd, fun q hq => NcDec.dec_canon h hlen hP hq, ?_, ncCdf_valid h hlen⟩
